@@ -198,4 +198,4 @@ def warmup(tier):
 
 
 def parts(tier):
-    return [Part("assemble", oracle, strategy=strategy(), n=1500 if tier == "quick" else 64000, describe=describe)]
+    return [Part("assemble", oracle, strategy=strategy(), n=1500 if tier == "quick" else 200000, describe=describe)]
